@@ -1239,7 +1239,13 @@ impl ConfigState {
             tags: front.tags.clone(),
         };
         let before = tcp_frontends.len();
-        if tcp_frontends.contains(&tcp_frontend) {
+        // A cluster holds at most one TCP frontend per address: removal is by
+        // (cluster, address), so a second frontend at the same address (other
+        // tags) could not be removed or diffed on its own.
+        if tcp_frontends
+            .iter()
+            .any(|f| f.address == tcp_frontend.address)
+        {
             debug_assert_eq!(
                 tcp_frontends.len(),
                 before,
@@ -1306,7 +1312,11 @@ impl ConfigState {
             address: front.address.into(),
             tags: front.tags.clone(),
         };
-        if udp_frontends.contains(&udp_frontend) {
+        // same rule as TCP: removal is by (cluster, address)
+        if udp_frontends
+            .iter()
+            .any(|f| f.address == udp_frontend.address)
+        {
             return Err(StateError::Exists {
                 kind: ObjectKind::UdpFrontend,
                 id: format!("{udp_frontend:?}"),
